@@ -8,8 +8,8 @@ VERIF = os.path.dirname(os.path.dirname(os.path.abspath(__file__)))
 REPO = os.environ.get("VERIF_REPO", "/repo")
 HARNESS = os.path.join(VERIF, "harness")
 BUILD = os.path.join(VERIF, ".build")
-WORK = os.path.join(VERIF, "work")
-EVID = os.path.join(VERIF, "evidence")
+WORK = os.environ.get("VERIF_WORK", os.path.join(VERIF, "work"))      # overridden by sensitivity campaigns only
+EVID = os.environ.get("VERIF_EVID", os.path.join(VERIF, "evidence"))
 NCPU = int(os.environ.get("VERIF_JOBS", str(os.cpu_count() or 4)))
 
 GOENV = {"GOFLAGS": "-mod=mod", "GOPROXY": "off", "GOSUMDB": "off", "GOTOOLCHAIN": "local"}
@@ -33,8 +33,22 @@ def goenv(extra=None):
     return e
 
 
+_pipe_closed = False
+
+
 def log(*a):
-    print(*a, flush=True)
+    global _pipe_closed
+    if _pipe_closed:
+        return
+    try:
+        print(*a, flush=True)
+    except BrokenPipeError:
+        # the reader went away (e.g. `| head`); keep running so that evidence and exit status stay right
+        _pipe_closed = True
+        try:
+            sys.stdout = open(os.devnull, "w")
+        except OSError:
+            pass
 
 
 class BuildError(Exception):
@@ -88,6 +102,8 @@ def build(cfg, cmd, race=False, asan=False, overlay=None, extra_tags=(), static=
 
 
 def run_shards(jobs, timeout):
+    if os.environ.get("VERIF_SHARD_TIMEOUT"):
+        timeout = int(os.environ["VERIF_SHARD_TIMEOUT"])
     """jobs: list of dict(args, out, log, env). Runs them NCPU at a time. Returns list of (job, status)
     with status in ok|crash|timeout and rc."""
     def one(j):
@@ -1017,6 +1033,15 @@ def main(argv):
     if spec is None:
         log("unknown property %s" % prop)
         return 2
+    only = os.environ.get("VERIF_ONLY_CONFIGS")
+    if only:
+        # sensitivity campaigns (tools/mutate.py) restrict a check to some build configurations
+        keep = set(only.split(","))
+        spec = dict(spec)
+        for key in ("configs", "inside_configs"):
+            if key in spec:
+                spec[key] = {t: [c for c in v if (c[0] if isinstance(c, tuple) else c).split("+")[0] in keep] for t, v in spec[key].items()}
+        spec["floor"] = 1
     try:
         return ENGINES[spec["engine"]](prop, tier, seed, spec)
     except BuildError as e:
